@@ -363,6 +363,8 @@ fn print_files(out: &mut impl Write, root: &str, kvs: &KeyValueStore, seen: &mut
     writeln!(out, "{line}").unwrap();
 }
 
+static LAST_PANIC: std::sync::Mutex<String> = std::sync::Mutex::new(String::new());
+
 fn session(args: &[String]) {
     let root = args[0].clone();
     let mut a: Vec<&str> = vec!["--path", &root];
@@ -372,7 +374,13 @@ fn session(args: &[String]) {
     let stdout = std::io::stdout();
     let mut out = std::io::BufWriter::new(stdout.lock());
     if std::env::var("C04_LOUD").is_err() {
-        hx::quiet_panics();
+        // a panic is an output: keep its message and location (which check fired matters to the check)
+        std::panic::set_hook(Box::new(|info| {
+            let msg = info.to_string().replace(['\n', ' '], "_");
+            if let Ok(mut g) = LAST_PANIC.lock() {
+                *g = msg;
+            }
+        }));
     }
     let o = LsmtkOptions::from_arguments_relaxed("c04", &a).0;
     let opened = std::panic::catch_unwind(|| KeyValueStore::open(o));
@@ -446,7 +454,10 @@ fn session(args: &[String]) {
         match r {
             Ok(s) if s == "DUMPREQ" => print_files(&mut out, &root, &kvs, &mut seen),
             Ok(s) => writeln!(out, "{s}").unwrap(),
-            Err(_) => writeln!(out, "PANIC {}", t[0]).unwrap(),
+            Err(_) => {
+                let msg = LAST_PANIC.lock().map(|g| g.clone()).unwrap_or_default();
+                writeln!(out, "PANIC {} {}", t[0], msg).unwrap()
+            }
         }
         out.flush().unwrap();
     }
